@@ -1,14 +1,14 @@
 SPECIFICATION Spec
 CONSTANTS
   MaxBlocks = 3
-  MaxReqs = 3
-  Templates = {"o23", "jmp", "ret", "call"}
-  PatchKinds = {"plain2", "jmpsym", "callsym", "ref"}
+  MaxReqs = 2
+  Templates = {"o23", "o123", "ret", "jmp", "d3"}
+  PatchKinds = {"plain2", "cfi", "cfistate", "loop"}
   FnLayouts = {"none", "one"}
   EndSyms = {FALSE}
   AnnModes = {"none"}
   WithProxyDel = TRUE
-  CfiLayouts = {"none"}
+  CfiLayouts = {"none", "proc_all", "proc_each", "proc_rs"}
   Emit = TRUE
 INVARIANT Inv
 CHECK_DEADLOCK FALSE
